@@ -29,6 +29,7 @@ type Val struct {
 	Closure *ssa.MakeClosure
 	Fn      *ssa.Function
 	IsNilC  bool
+	Tag     Term // ghost slot tag travelling with a value loaded from a slice element
 }
 
 type threadRec struct {
@@ -87,6 +88,8 @@ func (s *State) clone() *State {
 	return n
 }
 
+const tagsSort = "(Array Int (Array Int Int))"
+
 type outOfSubset struct{ msg string }
 
 func (vc *VC) unsupported(instr ssa.Instruction, f string, a ...any) {
@@ -139,7 +142,8 @@ func (vc *VC) assumeAllocated(st *State, t Term, typ types.Type) {
 			st.assume = append(st.assume, app("<=", t, vc.top(st)), app(">=", t, "0"))
 		}
 	case "Slice":
-		st.assume = append(st.assume, app("<=", app("sid", t), vc.top(st)), app(">=", app("sid", t), "0"), app(">=", app("slen", t), "0"), app(">=", app("soff", t), "0"))
+		st.assume = append(st.assume, app("<=", app("sid", t), vc.top(st)), app(">=", app("sid", t), "0"), app(">=", app("slen", t), "0"), app(">=", app("soff", t), "0"),
+			implies(eq(app("sid", t), "0"), eq(app("slen", t), "0")))
 	case "Iface":
 		st.assume = append(st.assume, implies(not(eq(t, "iface_nil")), app("<=", app("pl", t), vc.top(st))))
 	}
@@ -176,7 +180,12 @@ func (vc *VC) val(st *State, v ssa.Value) Val {
 	case *ssa.Const:
 		return vc.constVal(v)
 	case *ssa.Function:
-		return Val{T: vc.funcConst(funcKey(v)), Fn: v, Typ: v.Type()}
+		t := vc.funcConst(funcKey(v))
+		if !vc.pureAxiomsDone[funcKey(v)] {
+			vc.pureAxiomsDone[funcKey(v)] = true
+			vc.pureFuncAxiom(st, v, t, nil)
+		}
+		return Val{T: t, Fn: v, Typ: v.Type()}
 	case *ssa.Global:
 		gv := v.Object().(*types.Var)
 		et := v.Type().(*types.Pointer).Elem()
@@ -338,6 +347,10 @@ func (vc *VC) fnEnv(st *State, old *Heap) *Env {
 		}
 		return TV{}, false
 	}
+	if vc.effective != nil && len(vc.effective.Lets) > 0 {
+		vc.bindSelf(e)
+		vc.bindLetsOld(e, vc.effective)
+	}
 	return e
 }
 
@@ -394,6 +407,16 @@ func (vc *VC) loopEnv(st *State, li *loopInfo, old *Heap) *Env {
 	base := e.locals
 	names := vc.namesAt(li.header)
 	e.locals = func(ce *Env, name string) (TV, bool) {
+		if name == "_idx" || name == "_done" {
+			for _, ins := range li.header.Instrs {
+				if phi, ok := ins.(*ssa.Phi); ok && phi.Comment == "rangeindex" {
+					if name == "_idx" {
+						return TV{T: st.vals[phi].T, S: stInt}, true
+					}
+					return TV{T: app("+", st.vals[phi].T, "1"), S: stInt}, true
+				}
+			}
+		}
 		if v, ok := names[name]; ok {
 			if x, ok := st.vals[v]; ok && x.T != "" {
 				// address-taken locals: the value is the cell address; dereference
@@ -554,6 +577,7 @@ func (vc *VC) modOfAddr(st *State, addr ssa.Value, inLoop func(ssa.Value) bool, 
 		case *ssa.IndexAddr:
 			es := sortOf(elemTypeOf(x.X.Type()))
 			add(elemsArr(es), elemsSort(es), "", true, false)
+			add("Tags", tagsSort, "", true, false)
 		case *ssa.Alloc:
 			et := x.Type().(*types.Pointer).Elem()
 			s := sortOf(et)
@@ -587,6 +611,7 @@ func (vc *VC) modOfAddr(st *State, addr ssa.Value, inLoop func(ssa.Value) bool, 
 			}
 		}
 		add(elemsArr(es), elemsSort(es), base, inv, false)
+		add("Tags", tagsSort, base, inv, false)
 	case *ssa.Global:
 		gv := x.Object().(*types.Var)
 		add(globalArr(gv), sortOf(x.Type().(*types.Pointer).Elem()), "", false, true)
@@ -626,6 +651,7 @@ func (vc *VC) execFrom(st *State, b *ssa.BasicBlock, from *ssa.BasicBlock) {
 			panic(outOfSubset{fmt.Sprintf("more than %d paths", vc.maxPaths)})
 		}
 		st.path = append(st.path, b.Index)
+		vc.curState = st
 		if li := vc.loops[b]; li != nil {
 			if from != nil && li.blocks[from] {
 				vc.loopBackEdge(st, li, from)
@@ -657,6 +683,7 @@ func (vc *VC) execFrom(st *State, b *ssa.BasicBlock, from *ssa.BasicBlock) {
 						t.assume = append(t.assume, c)
 					}
 					vc.execFrom(t, b.Succs[0], b)
+					vc.curState = st
 					if c == "true" {
 						return
 					}
@@ -699,7 +726,7 @@ func (vc *VC) phiVal(st *State, phi *ssa.Phi, b, from *ssa.BasicBlock) Val {
 			if v.T == "" && v.Loc != nil {
 				vc.unsupported(phi, "phi over addresses")
 			}
-			return Val{T: v.T, Typ: phi.Type(), Closure: v.Closure, Fn: v.Fn}
+			return Val{T: v.T, Typ: phi.Type(), Closure: v.Closure, Fn: v.Fn, Tag: v.Tag}
 		}
 	}
 	vc.unsupported(phi, "phi without matching predecessor")
@@ -738,6 +765,7 @@ func (vc *VC) loopEnter(st *State, li *loopInfo, from *ssa.BasicBlock) {
 	}
 	// 2. invariants hold on entry
 	if li.spec != nil {
+		vc.curState = pre
 		env := vc.loopEnv(pre, li, newHeap())
 		for _, inv := range li.spec.Invariants {
 			g := vc.trClause(env, inv)
@@ -745,6 +773,7 @@ func (vc *VC) loopEnter(st *State, li *loopInfo, from *ssa.BasicBlock) {
 		}
 	}
 	// 3. havoc
+	vc.curState = st
 	mods := vc.loopModifies(st, li)
 	entryHeap := st.heap.clone()
 	topEntry := vc.top(st)
@@ -823,8 +852,46 @@ func (vc *VC) autoRangeFacts(st *State, li *loopInfo) {
 		}
 		if phi.Comment == "rangeindex" {
 			st.assume = append(st.assume, app(">=", st.vals[phi].T, "(- 1)"))
+			if lim := vc.rangeLimit(li, phi); lim != nil {
+				if lv, ok := st.vals[lim]; ok && lv.T != "" {
+					st.assume = append(st.assume, app("<", st.vals[phi].T, lv.T))
+				}
+			}
 		}
 	}
+}
+
+// rangeLimit recognises go/ssa's range-over-slice shape: header "i1 = phi+1; c = i1 < n; if c" with n defined
+// outside the loop, and returns n. The derived fact phi < n is inductive: it holds on entry (n = len >= 0 > -1) and
+// the back edge is only taken after i1 < n with phi' = i1.
+func (vc *VC) rangeLimit(li *loopInfo, phi *ssa.Phi) ssa.Value {
+	var inc *ssa.BinOp
+	for _, ins := range li.header.Instrs {
+		if b, ok := ins.(*ssa.BinOp); ok {
+			if b.Op == token.ADD && b.X == phi {
+				if c, ok := b.Y.(*ssa.Const); ok && c.Int64() == 1 {
+					inc = b
+				}
+			}
+			if inc != nil && b.Op == token.LSS && b.X == inc {
+				if i, ok := b.Y.(ssa.Instruction); ok && li.blocks[i.Block()] {
+					return nil
+				}
+				if cl, ok := b.Y.(*ssa.Call); ok {
+					if bi, ok := cl.Call.Value.(*ssa.Builtin); ok && bi.Name() == "len" {
+						// every back edge must carry inc into the phi
+						for i, p := range li.header.Preds {
+							if li.blocks[p] && phi.Edges[i] != inc {
+								return nil
+							}
+						}
+						return b.Y
+					}
+				}
+			}
+		}
+	}
+	return nil
 }
 
 func (vc *VC) loopBackEdge(st *State, li *loopInfo, from *ssa.BasicBlock) {
@@ -839,6 +906,7 @@ func (vc *VC) loopBackEdge(st *State, li *loopInfo, from *ssa.BasicBlock) {
 		}
 	}
 	if li.spec != nil {
+		vc.curState = post
 		env := vc.loopEnv(post, li, newHeap())
 		for _, inv := range li.spec.Invariants {
 			g := vc.trClause(env, inv)
@@ -862,12 +930,23 @@ func (vc *VC) loopBackEdge(st *State, li *loopInfo, from *ssa.BasicBlock) {
 }
 
 func (vc *VC) trClause(env *Env, c *Clause) Term {
-	if c.Pkg != nil && c.Pkg != env.pkg {
-		e2 := *env
+	e2 := *env
+	if c.Pkg != nil {
 		e2.pkg = c.Pkg
-		return e2.trBool(c.Expr)
 	}
-	return env.trBool(c.Expr)
+	var facts []Term
+	e2.facts = &facts
+	t := e2.trBool(c.Expr)
+	if len(facts) > 0 && vc.curState != nil {
+		seen := map[Term]bool{}
+		for _, f := range facts {
+			if !seen[f] {
+				seen[f] = true
+				vc.curState.assume = append(vc.curState.assume, f)
+			}
+		}
+	}
+	return t
 }
 
 func (vc *VC) siteOf(ins ssa.Instruction) string {
@@ -955,14 +1034,27 @@ func (vc *VC) execInstr(st *State, ins ssa.Instruction) {
 			vc.unsupported(x, "store of %v", x.Val.Type())
 		}
 		vc.store(st, addr, v.T, x)
+		if addr.Loc != nil && addr.Loc.IsElem {
+			tg := v.Tag
+			if tg == "" {
+				tg = vc.d.freshConst("tag", "Int")
+			}
+			tags := vc.hget(st.heap, "Tags", tagsSort)
+			vc.setHeap(st, "Tags", tagsSort, app("store", tags, addr.Loc.Base, app("store", app("select", tags, addr.Loc.Base), addr.Loc.Idx, tg)))
+		}
 	case *ssa.Call:
 		res := vc.execCall(st, x)
 		st.vals[x] = res
+		vc.siteHooks(st, vc.calleeKeyOf(st, &x.Call), x, false)
 	case *ssa.ChangeInterface:
 		v := vc.val(st, x.X)
 		st.vals[x] = Val{T: v.T, Typ: x.Type()}
 	case *ssa.ChangeType:
 		v := vc.val(st, x.X)
+		if _, isTP := types.Unalias(x.X.Type()).(*types.TypeParam); isTP && sortOf(x.Type()) == "Iface" {
+			st.vals[x] = Val{T: vc.toAny(v.T, x.X.Type()), Typ: x.Type(), Tag: v.Tag}
+			return
+		}
 		v.Typ = x.Type()
 		st.vals[x] = v
 	case *ssa.Convert:
@@ -1031,7 +1123,7 @@ func (vc *VC) execInstr(st *State, ins ssa.Instruction) {
 		vc.hget(st.heap, elemsArr(es), elemsSort(es))
 		if sortOf(x.X.Type()) == "Slice" {
 			vc.safety(st, and(app("<=", "0", idx), app("<", idx, app("slen", base.T))), "index", x)
-			st.vals[x] = Val{Loc: &Loc{Arr: elemsArr(es), ESort: es, Base: app("sid", base.T), Idx: app("+", app("soff", base.T), idx), IsElem: true, BaseV: x.X}, Typ: x.Type()}
+			st.vals[x] = Val{Loc: &Loc{Arr: elemsArr(es), ESort: es, Base: app("sid", base.T), Idx: app("idx", base.T, idx), IsElem: true, BaseV: x.X}, Typ: x.Type()}
 		} else {
 			// pointer to array
 			at := x.X.Type().Underlying().(*types.Pointer).Elem().Underlying().(*types.Array)
@@ -1118,7 +1210,11 @@ func (vc *VC) execUnOp(st *State, x *ssa.UnOp) {
 			}
 		}
 		t := vc.load(st, v, x)
-		st.vals[x] = Val{T: t, Typ: x.Type()}
+		out := Val{T: t, Typ: x.Type()}
+		if v.Loc != nil && v.Loc.IsElem {
+			out.Tag = app("select", app("select", vc.hget(st.heap, "Tags", tagsSort), v.Loc.Base), v.Loc.Idx)
+		}
+		st.vals[x] = out
 		vc.assumeAllocated(st, t, x.Type())
 	case token.NOT:
 		st.vals[x] = Val{T: not(v.T), Typ: x.Type()}
